@@ -58,7 +58,7 @@ def config(rng):
     ff = rng.choice(common.FFS)
     opts = [f"--ff={ff}"]
     flavour = rng.choice(["plain", "plain", "propka", "dropwater", "ffout", "whitespace", "neutral", "noopt", "assign",
-                          "clean", "keepchain", "userff", "usernames", "apbs", "apbs"])
+                          "clean", "keepchain", "userff", "usernames", "apbs", "apbs", "ligand"])
     if flavour == "propka":
         opts += ["--titration-state-method=propka", "--with-ph=%.1f" % rng.choice([2.0, 4.5, 7.0, 9.5, 12.0])]
     elif flavour == "dropwater":
@@ -107,8 +107,38 @@ def config(rng):
         if enc != "pdb":
             w["enc"] = enc
             w["model_numbers"] = rng.choice([[1, 2, 3], [9, 10, 11], [2, 10, 11], [3, 2, 1], [1, 2, 3, 4, 5, 6, 7, 8, 9, 10, 11]])
+    if flavour == "ligand":
+        # a peptide with a MOL2-parameterised ligand (--ligand): the ligand bookkeeping of one run must not reach the next
+        w = {"w": "ligcomplex", "seed": rng.randrange(10 ** 6), "ff": ff}
+        opts = [f"--ff={ff}", "--ligand={dir}/lig.mol2"] + rng.choice([[], [], ["--keep-chain"], ["--noopt"]])
     cid = hashlib.sha1(json.dumps([w, opts, userff], sort_keys=True).encode()).hexdigest()[:10]
     return {"id": cid, "fail": None, "opts": opts, "w": w, "flavour": flavour, "userff": userff}
+
+
+def ligand_complex(seed):
+    """(PDB text, MOL2 text) of a small peptide with one hetero group taken from a generated MOL2 molecule."""
+    import numpy as np
+    from ..gen import mol2gen
+    from ..gen import structures as S
+    rng = random.Random(seed)
+    mol = mol2gen.random_molecule(rng, 2, 6)
+    taken = {a["name"] for a in mol["atoms"]}
+    for a in mol["atoms"]:
+        a["resn"] = "LIG"
+        if a["name"] in ("O", "H1", "H2"):
+            new = "L" + a["name"]
+            while new in taken:
+                new = new[:3] + rng.choice("ABCDEFGH")
+            taken.add(new)
+            a["name"] = new
+    pep = S.peptide(S.random_sequence(rng, rng.randint(3, 5), pool=["ALA", "GLY", "SER", "LEU", "LYS", "ASP", "THR"]), rng)
+    c0 = S.centroid(pep)
+    pts = np.array([a["xyz"] for a in mol["atoms"]])
+    shift = c0 + np.array([25.0, 0, 0]) - pts.mean(0)
+    het = {"resn": "LIG", "kind": "het", "atoms": [(a["name"], np.array(a["xyz"]) + shift) for a in mol["atoms"]]}
+    items, _ = S.assemble([{"id": "A", "start": 1, "residues": pep},
+                           {"id": rng.choice(["A", "L"]), "start": 301, "residues": [het]}])
+    return pdbfmt.to_text(items), mol2gen.write(mol)
 
 
 def text_of(cfg):
@@ -127,6 +157,8 @@ def text_of(cfg):
         return pdbfmt.to_text(items)
     if cfg["w"].get("named"):
         return (common.REPO / "tests" / "data" / f"{cfg['w']['named']}.pdb").read_text()
+    if cfg["w"].get("w") == "ligcomplex":
+        return ligand_complex(cfg["w"]["seed"])[0]
     m = workload.materialise({k: v for k, v in cfg["w"].items() if k not in ("enc", "model_numbers", "lone_waters")})
     if cfg["w"].get("lone_waters"):
         # isolated waters far from everything (no hydrogen-bond partner, no protein atom in the neighbouring cells)
@@ -192,6 +224,8 @@ def run_cfg(cfg):
         else:
             dat, names, _ = ffgen.make(random.Random(cfg["userff"]["ffseed"]), cfg["userff"]["base"])
             extra = {"u.dat": dat, "u.names": names}
+    if (cfg["w"] or {}).get("w") == "ligcomplex":
+        extra = {"lig.mol2": ligand_complex(cfg["w"]["seed"])[1]}
     apbs = any(o.startswith("--apbs-input") for o in opts)
     r = pipeline.run(text, opts, workname="c11", extra_files=extra, keep=apbs,
                      suffix=".cif" if (cfg["w"] or {}).get("enc", "").startswith("cif") else ".pdb")
@@ -333,6 +367,15 @@ def run_history(spec, res):
                 want.pop(0)
         # order: loose first (pool[0] is A in the forced A-B-A pattern)
         pool.sort(key=lambda c: 0 if (c["w"] or {}).get("enc") == "pdb-loose" else 1)
+    if spec["seed"] % 3 == 2:
+        # two different complexes that both go through --ligand (A, B, A ...): ligand atoms of one run must not
+        # show up in the next
+        k = 0
+        while sum(1 for c in pool if c.get("flavour") == "ligand") < 2 and k < 600:
+            c = config(random.Random(spec["seed"] * 29 + k))
+            k += 1
+            if c["fail"] is None and c.get("flavour") == "ligand" and c["id"] not in [p["id"] for p in pool]:
+                pool.insert(0, c)
     fails = [c for c in (config(random.Random(spec["seed"] * 7 + k)) for k in range(40)) if c["fail"]][:2] or \
         [{"id": "fail-garbage", "fail": "garbage", "opts": ["--ff=AMBER"], "w": None}]
     ref = {}
